@@ -20,7 +20,7 @@ CHECKS = {
          "in-memory broker; thread/process pools not exercised; one genuine defect (F8) repaired by fix: commit 4db1223.",
          "Lean 4 proof (case analysis, unbounded in retry counters) + exhaustive-table differential correspondence", "§5 C02"),
  "C03": ("Lean (in-memory broker atoms): cancel_before_returns, cancel_after_disposed, stop_conserves_partial (a task cancelled at ANY point inside an ack/nack followed by the runner's reject leaves the message in exactly one place), finish_returns_all, return_time_bound (timer model), refutation requeue_window_witness.  Redis crash recovery: maintenance_single / maintenance_not_before (a held message is returned by maintenance iff its execution timeout has elapsed since the second of its take).  RabbitMQ: rabbit_requeue_window_witness. "
-         "Tie: crash-point enumeration on the real Worker: 7 phase scenarios × graceful ∈ {0, 2 ms, 25 s} × stop request (the really registered signal handler) delivered at every callback index near any delivery / broker call / actor boundary (all indices in thorough); final broker state judged per message (disposed by one completed call xor back once with unchanged counter; nothing in-flight; none-or-all for interrupted calls); return time bound. Redis: crash scenarios (a consumer takes messages with timeouts from 1 s to 3 days at all positions inside a clock second and is abandoned; another process advances time and runs maintenance): returned not before the timeout (whole-second store: 1 s slack) and returned after it, back in exactly one queue; state vs Redis.R after every call. RabbitMQ: requeue cancelled after every event-loop step on the fake AMQP server.",
+         "Tie: crash-point enumeration on the real Worker: 7 phase scenarios × graceful ∈ {0, 2 ms, 25 s} × stop request (the really registered signal handler) delivered at every callback index near any delivery / broker call / actor boundary (all indices in thorough); final broker state judged per message (disposed by one completed call xor back once with unchanged counter; nothing in-flight; none-or-all for interrupted calls); return time bound. Redis: crash scenarios (a consumer takes messages with timeouts from 1 s to 3 days at all positions inside a clock second and is abandoned; another process advances time and runs maintenance): returned not before the timeout (whole-second store: 1 s slack) and returned after it, back in exactly one queue; state vs Redis.R after every call. RabbitMQ: requeue cancelled after every event-loop step on the fake AMQP server. Worker on the Redis / RabbitMQ brokers (fake servers): the same stop-at-every-callback enumeration (3–5 scenarios × graceful periods); on RabbitMQ the final state is read after the worker's connection is closed.",
          "in-memory broker for the worker runs; Redis crash recovery through maintenance on the fake server; process death and OS signal timing are runtime. PARTIAL: requeue window recorded as known finding F2.",
          "Lean 4 proof + crash-point (fault) enumeration on the real worker", "§5 C03"),
  "C04": ("Lean: the FULL statement as one theorem (C04.chain_ok): for every N ≥ 0, every failure pattern, every retry policy, duration and latency profile, recurring or not, the chain of executions of one scheduling satisfies chainOk — counters 0,1,2…, at most N+1 executions, exactly N+1 then dead-lettered/rescheduled when all fail, a success ends the chain with ack, the k-th retry not before failure + policy(k); plus counter_step, counter_bounded, chain_length, success_ends. "
